@@ -26,6 +26,9 @@ pub struct Ctl {
     pub fail_open_not_found: bool,
     /// listing a directory whose path contains this string fails; empty = off
     pub fail_list: String,
+    /// `write` on a file whose path contains `short_write_path` accepts at most this many bytes per call (0 = unlimited)
+    pub max_write: usize,
+    pub short_write_path: String,
     /// number of upcoming positional reads (`read_from`) on read-only handles of paths containing `fail_read_path` that fail
     pub fail_reads: usize,
     pub fail_read_path: String,
@@ -78,6 +81,12 @@ impl FaultFs {
     /// listing a directory whose path contains `path_contains` fails (empty string = off)
     pub fn fail_list(&self, path_contains: &str) {
         self.ctl.lock().unwrap().fail_list = path_contains.to_string();
+    }
+    /// `Write::write` on matching files accepts at most `max` bytes per call (a short write, as the Write contract allows)
+    pub fn short_writes(&self, path_contains: &str, max: usize) {
+        let mut c = self.ctl.lock().unwrap();
+        c.short_write_path = path_contains.to_string();
+        c.max_write = max;
     }
     pub fn fail_next_len(&self, n: usize) {
         self.ctl.lock().unwrap().fail_len = n;
@@ -137,7 +146,11 @@ impl Seek for FFile {
 impl Write for FFile {
     fn write(&mut self, buf: &[u8]) -> Result<usize> {
         gate(&self.ctl, "write", &self.path)?;
-        self.inner.write(buf)
+        let max = {
+            let c = self.ctl.lock().unwrap();
+            if c.max_write > 0 && self.path.to_string_lossy().contains(&c.short_write_path) { c.max_write } else { usize::MAX }
+        };
+        self.inner.write(&buf[..buf.len().min(max)])
     }
     fn flush(&mut self) -> Result<()> {
         self.inner.flush()
